@@ -401,8 +401,9 @@ where
         }
         if ev["op"] == "Nop" {
             if let Err(msg) = &r {
-                // the harness itself failed before the operation started: fail loudly
-                out.push(json!({"op":"HarnessError","w":wi+1,"msg":msg}).to_string());
+                // the operation panicked inside the library before it returned anything
+                let ob = catch(|| obs::<M>(&worlds[wi])).unwrap_or(json!([]));
+                out.push(json!({"op":"Panic","w":wi+1,"in":o,"msg":msg,"obs":ob,"panic":msg}).to_string());
                 break;
             }
             continue;
